@@ -481,6 +481,38 @@ func (s *sev) callDecl(fo *types.Func, recv tv, recvCell *tcell, args []tv, vari
 
 func isErrT(t types.Type) bool { return isErrorType(t) }
 
+func clipS(s string, n int) string {
+	if len(s) > n {
+		return s[:n] + "…"
+	}
+	return s
+}
+
+// isZeroTerm: the term is certainly the zero value of its type.
+func isZeroTerm(v tv) bool {
+	switch x := v.(type) {
+	case nil, tNil:
+		return true
+	case tConst:
+		switch x.V.Kind() {
+		case constant.String:
+			return constant.StringVal(x.V) == ""
+		case constant.Bool:
+			return !constant.BoolVal(x.V)
+		case constant.Int:
+			return constant.Sign(x.V) == 0
+		}
+	case *tObj:
+		for _, c := range x.F {
+			if !isZeroTerm(c.v) {
+				return false
+			}
+		}
+		return true
+	}
+	return false
+}
+
 // immutableArgs: none of the values can be written through by the callee (so an abandoned extraction of the callee
 // leaves no half-made change behind).
 func immutableArgs(recv tv, args []tv) bool {
@@ -535,6 +567,16 @@ func (s *sev) callFn(fr *sevFrame, f *tFn, args []tv, packed bool, resT types.Ty
 		}
 		if target == nil {
 			s.abort("summarised encoder called on a non-addressable receiver")
+		}
+		for {
+			pp, ok := target.v.(*tPtr)
+			if !ok {
+				break
+			}
+			target = pp.C // a pointer-typed receiver expression: the object it points to is what gets filled in
+		}
+		if !isZeroTerm(target.v) {
+			s.abort("the encoder %s fills in only the members of the form it writes: it is applied here to an object that may still hold members from an earlier use (%s)", fo.Name(), clipS(target.v.ts(), 120))
 		}
 		target.v = &tEnc{X: args[0], By: fo}
 		return &tTuple{}
